@@ -11,7 +11,7 @@ if [ -n "$(git -C $R status --porcelain --untracked-files=no)" ]; then echo "rep
 trap 'git -C $R checkout -- . ; ' EXIT
 git -C $R apply "$P" || { echo "patch does not apply"; exit 2; }
 mkdir -p $B/mutant_replays
-out=$(VERIF_NOLOCK=1 bin/check "$ID" "$TIER" 2>&1); rc=$?
+out=$(VERIF_NOLOCK=1 VERIF_EVIDENCE_DIR="$B/mutant_evidence" bin/check "$ID" "$TIER" 2>&1); rc=$?
 echo "$out" | grep -E "VIOLATION|what:|KNOWN-FINDING|BUILD-ERROR|^OK" | head -8
 # remove violation replays produced by the mutant
 rm -f $V/replays/$ID/violation_*
